@@ -51,7 +51,10 @@ def gen_spec(rng, name, klass="free", size=None, n_mws=None, own_stress=False):
              "async": rng.random() < 0.3,
              # a quarter of the constructors are associated functions of a `#[pavex::methods]` block (chosen without
              # consuming the generator's random stream)
-             "method": zlib.crc32(("%s/%d" % (name, i)).encode()) % 4 == 0}
+             "method": zlib.crc32(("%s/%d" % (name, i)).encode()) % 4 == 0,
+             # a third of the constructors get their lifecycle and/or cloning policy from the registration
+             # (`bp.constructor(X).lifecycle(..).clone_if_necessary()`), the annotation saying something else
+             "override": [None, None, None, None, "life", "clone", "both", "both", None][zlib.crc32(("o/%s/%d" % (name, i)).encode()) % 9]}
         ctors.append(c)
         if t["copy"]:
             usage[i] = "copy"
@@ -263,9 +266,14 @@ def render(spec):
         i = c["i"]
         _cstart = len(o)
         t = spec["types"][i]
-        life = {"request": "request_scoped", "singleton": "singleton", "transient": "transient"}[c["life"]]
+        ov = c.get("override") if (i not in ctor_imports) else None
+        ann_life = c["life"]
+        if ov in ("life", "both"):
+            # the annotation names another lifecycle; the registration sets the real one
+            ann_life = {"request": "transient", "transient": "request", "singleton": "request"}[c["life"]]
+        life = {"request": "request_scoped", "singleton": "singleton", "transient": "transient"}[ann_life]
         args = ["id = \"%s_C%d\"" % (U, i)]
-        if c["cloning"]:
+        if c["cloning"] and ov not in ("clone", "both"):
             args.append("clone_if_necessary")
         if c["fallible"]:
             emit_err("c", i)
@@ -395,7 +403,14 @@ def render(spec):
             if k == "ctor" and op[1] in ctor_imports and not spec["ctors"][op[1]]["fallible"]:
                 w("%s%s.import(pavex::blueprint::from![crate::%s::cg%d]);" % (ind, var, M, ctor_imports[op[1]]))
             elif k == "ctor":
-                w("%s%s.constructor(%s_C%d);" % (ind, var, U, op[1]))
+                c_ = spec["ctors"][op[1]]
+                ov_ = c_.get("override")
+                mods = ""
+                if ov_ in ("life", "both"):
+                    mods += ".lifecycle(pavex::blueprint::Lifecycle::%s)" % {"request": "RequestScoped", "singleton": "Singleton", "transient": "Transient"}[c_["life"]]
+                if ov_ in ("clone", "both"):
+                    mods += ".clone_if_necessary()" if c_["cloning"] else ".never_clone()"
+                w("%s%s.constructor(%s_C%d)%s;" % (ind, var, U, op[1], mods))
             elif k == "wrap":
                 w("%s%s.wrap(%s_M%d);" % (ind, var, U, op[1]))
             elif k == "pre":
